@@ -7,9 +7,9 @@ package action
 
 //@ func ComputeFeeAmount(amount, basisPoints) (result, err)
 //@   requires[base] !isnil(amount)
-//@   ensures[C04]   err == nil && val(amount)*basisPoints >  0 ==> val(result) == (val(amount)*basisPoints) / 10000
-//@   ensures[C04]   err == nil && val(amount)*basisPoints <= 0 ==> val(result) == 0
-//@   ensures[C04]   abs(val(amount)*basisPoints) >= 2^256 ==> err != nil
+//@   ensures[C04,C02,C11]   err == nil && val(amount)*basisPoints >  0 ==> val(result) == (val(amount)*basisPoints) / 10000
+//@   ensures[C04,C02,C11]   err == nil && val(amount)*basisPoints <= 0 ==> val(result) == 0
+//@   ensures[C04,C02,C11]   abs(val(amount)*basisPoints) >= 2^256 ==> err != nil
 //@   ensures[base]  !isnil(result)
 
 // Ledger effect of a list of (recipient, one-coin amount) transfers from `from`, applied in list order:
@@ -40,17 +40,17 @@ package action
 //@   loop 0 invariant[base] 0 <= idx && idx <= len(feesInfo) && fees != nil && !isnil(fees.Total)
 //@   loop 0 invariant[base] len(fees.Values) <= idx
 //@   loop 0 invariant[base] val(fees.Total) >= 0
-//@   loop 0 invariant[C04]  len(fees.Values) == nposUpTo(A, feesInfo, idx)
+//@   loop 0 invariant[C04,C02,C11]  len(fees.Values) == nposUpTo(A, feesInfo, idx)
 //@   loop 0 invariant[base] oneCoin5(fees.Values)
-//@   loop 0 invariant[C04]  !mulOvfUpTo(A, feesInfo, idx)
-//@   loop 0 invariant[C04]  val(fees.Total) == sumUpTo(A, feesInfo, idx)
-//@   loop 0 invariant[C04]  payUpTo(bank, core.ModuleAddress, fees.Values, len(fees.Values)) == feePayUpTo(bank, A, transferDenom, feesInfo, idx)
+//@   loop 0 invariant[C04,C02,C11]  !mulOvfUpTo(A, feesInfo, idx)
+//@   loop 0 invariant[C04,C02,C11]  val(fees.Total) == sumUpTo(A, feesInfo, idx)
+//@   loop 0 invariant[C04,C02,C11]  payUpTo(bank, core.ModuleAddress, fees.Values, len(fees.Values)) == feePayUpTo(bank, A, transferDenom, feesInfo, idx)
 //@   ensures[base]  err == nil ==> result != nil && !isnil(result.Total) && len(result.Values) <= 5 && val(result.Total) >= 0
 //@   ensures[base]  err == nil ==> oneCoin5(result.Values)
-//@   ensures[C04]   err == nil ==> val(result.Total) == sum5(A, feesInfo)
-//@   ensures[C04]   err == nil ==> len(result.Values) == npos5(A, feesInfo)
-//@   ensures[C04]   mulOvf5(A, feesInfo) ==> err != nil
-//@   ensures[C04]   err == nil ==> pay5(bank, core.ModuleAddress, result.Values) == feePay5(bank, A, transferDenom, feesInfo)
+//@   ensures[C04,C02,C11]   err == nil ==> val(result.Total) == sum5(A, feesInfo)
+//@   ensures[C04,C02,C11]   err == nil ==> len(result.Values) == npos5(A, feesInfo)
+//@   ensures[C04,C02,C11]   mulOvf5(A, feesInfo) ==> err != nil
+//@   ensures[C04,C02,C11]   err == nil ==> pay5(bank, core.ModuleAddress, result.Values) == feePay5(bank, A, transferDenom, feesInfo)
 
 //@ func (c *FeeController) executeAction(ctx, fees) (err)
 //@   requires[inv]  c != nil && c.BankKeeper != nil
@@ -80,12 +80,12 @@ package action
 //@   letold D = packet.TransferAttributes.destinationCoin.Denom
 //@   letold fs = feeAttrsOf(packet).FeesInfo
 //@   modifies bank, events, packet.TransferAttributes.destinationCoin
-//@   ensures[C04]   err == nil ==> isFeeAttrs(packet) && validFees(fs)
-//@   ensures[C04]   err == nil ==> sum5(A, fs) < A && !isnil(ta.destinationCoin.Amount) && val(ta.destinationCoin.Amount) == A - sum5(A, fs)
-//@   ensures[C04]   err == nil ==> bank == feePay5(old(bank), A, D, fs)
+//@   ensures[C04,C02,C11]   err == nil ==> isFeeAttrs(packet) && validFees(fs)
+//@   ensures[C04,C02,C11]   err == nil ==> sum5(A, fs) < A && !isnil(ta.destinationCoin.Amount) && val(ta.destinationCoin.Amount) == A - sum5(A, fs)
+//@   ensures[C04,C02,C11]   err == nil ==> bank == feePay5(old(bank), A, D, fs)
 //@   ensures[C04,C01,C02,C11]   err == nil ==> ta.destinationCoin.Denom == D
-//@   ensures[C04]   isFeeAttrs(packet) && validFees(fs) && (sum5(A, fs) >= A || mulOvf5(A, fs)) ==> err != nil && bank == old(bank) && ta.destinationCoin == old(ta.destinationCoin)
-//@   ensures[C04]   !isFeeAttrs(packet) ==> err != nil && bank == old(bank) && ta.destinationCoin == old(ta.destinationCoin)
+//@   ensures[C04,C02,C11]   isFeeAttrs(packet) && validFees(fs) && (sum5(A, fs) >= A || mulOvf5(A, fs)) ==> err != nil && bank == old(bank) && ta.destinationCoin == old(ta.destinationCoin)
+//@   ensures[C04,C02,C11]   !isFeeAttrs(packet) ==> err != nil && bank == old(bank) && ta.destinationCoin == old(ta.destinationCoin)
 
 //@ func NewFeeController(logger, eventService, bankKeeper) (result, err)
 //@   ensures[C05] err == nil ==> result != nil && result.BaseController != nil && result.BaseController.id == core.ACTION_FEE && result.BankKeeper != nil && result.eventService != nil && result.logger != nil
